@@ -55,20 +55,6 @@ Proof.
   - rewrite after_colon_prefix by assumption. reflexivity.
 Qed.
 
-Lemma no_colon_neq_colon : forall n p l, no_colon n = true -> str_eqb n (p ++ COLON :: l) = false.
-Proof.
-  induction n as [|x n IH]; intros [|y p] l H; try reflexivity.
-  - cbn [app str_eqb]. cbn [no_colon forallb] in H. apply andb_true_iff in H.
-    destruct H as [H1 _]. destruct (x =? COLON) eqn:E; [discriminate|]. reflexivity.
-  - cbn [app str_eqb]. cbn [no_colon forallb] in H. apply andb_true_iff in H.
-    destruct H as [_ H2]. rewrite (IH p l H2). apply andb_false_r.
-Qed.
-
-(* a name without colon never equals a prefixed name: the root of class F34 *)
-Lemma nocolon_neq_prefixed : forall n x p l, no_colon n = true ->
-  str_eqb n (qn (x :: p) l) = false.
-Proof. intros n x p l H. unfold qn. apply (@no_colon_neq_colon n (x :: p) l H). Qed.
-
 (* evaluate comparisons and local names of closed names *)
 Ltac sc_once :=
   repeat match goal with
@@ -118,39 +104,30 @@ Proof.
     eapply IH; eassumption.
 Qed.
 
-(* what the reader keeps of a character content: Text events only *)
-Definition tc_mtext (tc : tcontent) : str :=
-  flat_map (fun c => match c with TcText s => s | _ => [] end) tc.
-
-Lemma tc_mtext_raw : forall tc, tc_has_cdata tc = false -> tc_mtext tc = tc_raw tc.
+(* outside F37 (_xHHHH_ escapes) the reader keeps exactly what is denoted *)
+Lemma tc_mtext_not_bad : forall tc, tc_bad tc = false -> tc_mtext tc = tc_text tc.
 Proof.
-  induction tc as [|c tc IH]; intro H; [reflexivity|].
-  cbn [tc_has_cdata existsb] in H. apply orb_false_iff in H. destruct H as [H1 H2].
-  unfold tc_mtext, tc_raw in *. cbn [flat_map]. rewrite (IH H2).
-  destruct c as [s|s|]; try reflexivity. destruct s; [reflexivity|discriminate].
+  intros tc H. unfold tc_bad in H. apply negb_false_iff in H. apply str_eqb_eq in H. exact H.
 Qed.
 
-(* outside F12 (CDATA) and F37 (_xHHHH_ escapes) the reader keeps exactly what is denoted *)
-Lemma tc_mtext_no_cdata : forall tc, tc_bad tc = false -> tc_mtext tc = tc_text tc.
-Proof.
-  intros tc H. unfold tc_bad in H. apply orb_false_iff in H. destruct H as [H1 H2].
-  rewrite (tc_mtext_raw tc H1). unfold tc_text. unfold tc_has_xesc in H2.
-  apply negb_false_iff in H2. apply str_eqb_eq in H2. symmetry. exact H2.
-Qed.
-
+(* inside <t>: every chunk is appended, Text and CDATA alike *)
 Lemma rs_steps_in_t : forall closing rich tn tc v,
-  rs_steps closing (RsInT rich tn v) (tc_events tc) = Some (RsInT rich tn (v ++ tc_mtext tc)).
+  rs_steps closing (RsInT rich tn v) (tc_events tc) = Some (RsInT rich tn (v ++ tc_raw tc)).
 Proof.
   induction tc as [|c tc IH]; intro v.
   - cbn. rewrite app_nil_r. reflexivity.
-  - unfold tc_events, tc_mtext in *. cbn [map flat_map rs_steps].
+  - unfold tc_events, tc_raw in *. cbn [map flat_map rs_steps].
     destruct c as [s|s|]; cbn [rs_step]; rewrite IH.
     + rewrite app_assoc. reflexivity.
-    + reflexivity.
+    + rewrite app_assoc. reflexivity.
     + reflexivity.
 Qed.
 
 Lemma no_colon_t : no_colon n_t = true. Proof. reflexivity. Qed.
+Lemma no_colon_r : no_colon n_r = true. Proof. reflexivity. Qed.
+Lemma no_colon_rPh : no_colon n_rPh = true. Proof. reflexivity. Qed.
+Lemma no_colon_rPr : no_colon n_rPr = true. Proof. reflexivity. Qed.
+Lemma no_colon_phoneticPr : no_colon n_phoneticPr = true. Proof. reflexivity. Qed.
 
 (* <t>…</t> met in the main loop outside phonetic runs, rich buffer active: appended *)
 Lemma t_elt_rich : forall closing pfx preserve tc b, no_colon pfx = true ->
@@ -202,25 +179,74 @@ Proof.
   rewrite IH. destruct c; reflexivity.
 Qed.
 
-Lemma phonetic_skip_inert : forall pfx cl p, cl_ok cl -> is_phonetic p = true ->
+Lemma t_elt_skip_inert : forall pfx cl preserve tc, cl_ok cl ->
+  forallb (skip_inert (qn pfx cl)) (t_elt pfx preserve tc) = true.
+Proof.
+  intros pfx cl preserve tc Hcl. unfold t_elt, elt. cbn [forallb skip_inert].
+  rewrite forallb_app. cbn [forallb skip_inert]. rewrite tc_events_skip_inert, !str_eqb_qn.
+  destruct Hcl; subst cl; reflexivity.
+Qed.
+
+Lemma rpr_children_skip_inert : forall pfx cl rpr, cl_ok cl ->
+  forallb (fun na => rpr_name_ok (fst na)) rpr = true ->
+  forallb (skip_inert (qn pfx cl)) (flat_map (fun na => elt pfx (fst na) (snd na) []) rpr) = true.
+Proof.
+  induction rpr as [|[n a] rpr IH]; intros Hcl H; [reflexivity|].
+  cbn [forallb fst] in H. apply andb_true_iff in H. destruct H as [H1 H2].
+  cbn [flat_map fst snd elt app forallb skip_inert]. rewrite (IH Hcl H2), !str_eqb_qn.
+  unfold rpr_name_ok in H1. repeat (apply andb_true_iff in H1; destruct H1 as [H1 ?]).
+  destruct Hcl; subst cl.
+  - destruct (str_eqb n n_si); [discriminate|]. reflexivity.
+  - destruct (str_eqb n n_is); [discriminate|]. reflexivity.
+Qed.
+
+(* no child of a string item carries the item's own name: read_to_end_into passes over it *)
+Lemma piece_skip_inert : forall pfx cl p, cl_ok cl -> legal_piece p = true ->
   forallb (skip_inert (qn pfx cl)) (piece_events pfx p) = true.
 Proof.
-  intros pfx cl p Hcl Hp. destruct p as [rpr pres tc|tc|]; [discriminate| |].
-  - unfold piece_events, t_elt, elt. cbn [forallb skip_inert app].
-    rewrite !forallb_app. cbn [forallb skip_inert].
-    rewrite tc_events_skip_inert, !str_eqb_qn.
-    destruct Hcl; subst cl; reflexivity.
+  intros pfx cl p Hcl Hp. destruct p as [rpr pres tc|tc|].
+  - unfold piece_events, elt at 1. cbn [forallb skip_inert legal_piece] in *.
+    rewrite !forallb_app. rewrite (t_elt_skip_inert pfx cl pres tc Hcl).
+    cbn [forallb skip_inert]. rewrite !str_eqb_qn.
+    assert (Hr : forallb (skip_inert (qn pfx cl))
+               (match rpr with
+                | [] => []
+                | _ => elt pfx n_rPr [] (flat_map (fun na => elt pfx (fst na) (snd na) []) rpr)
+                end) = true).
+    { destruct rpr as [|na rpr']; [reflexivity|]. unfold elt at 1. cbn [forallb skip_inert].
+      rewrite forallb_app, (rpr_children_skip_inert pfx cl (na :: rpr') Hcl Hp).
+      cbn [forallb skip_inert]. rewrite !str_eqb_qn. destruct Hcl; subst cl; reflexivity. }
+    rewrite Hr. destruct Hcl; subst cl; reflexivity.
+  - unfold piece_events, elt at 1. cbn [forallb skip_inert].
+    rewrite forallb_app. rewrite (t_elt_skip_inert pfx cl false tc Hcl).
+    cbn [forallb skip_inert]. rewrite !str_eqb_qn. destruct Hcl; subst cl; reflexivity.
   - unfold piece_events, elt. cbn [forallb skip_inert app]. rewrite !str_eqb_qn.
     destruct Hcl; subst cl; reflexivity.
 Qed.
 
-Lemma phonetics_skip_inert : forall pfx cl ps, cl_ok cl -> forallb is_phonetic ps = true ->
+Lemma pieces_skip_inert : forall pfx cl ps, cl_ok cl -> forallb legal_piece ps = true ->
   forallb (skip_inert (qn pfx cl)) (flat_map (piece_events pfx) ps) = true.
 Proof.
   induction ps as [|p ps IH]; intros Hcl H; [reflexivity|].
   cbn [forallb] in H. apply andb_true_iff in H. destruct H as [H1 H2].
   cbn [flat_map]. rewrite forallb_app, IH by assumption.
-  rewrite phonetic_skip_inert by assumption. reflexivity.
+  rewrite piece_skip_inert by assumption. reflexivity.
+Qed.
+
+Lemma phonetic_legal : forall ps, forallb is_phonetic ps = true -> forallb legal_piece ps = true.
+Proof.
+  induction ps as [|p ps IH]; intro H; [reflexivity|].
+  cbn [forallb] in *. apply andb_true_iff in H. destruct H as [H1 H2]. rewrite (IH H2).
+  destruct p; [discriminate|reflexivity|reflexivity].
+Qed.
+
+Lemma item_events_skip_inert : forall pfx cl f, cl_ok cl -> legal_form f = true ->
+  forallb (skip_inert (qn pfx cl)) (item_events pfx f) = true.
+Proof.
+  intros pfx cl [preserve tc after|ps] Hcl Hl; cbn [item_events legal_form] in *.
+  - rewrite forallb_app, (t_elt_skip_inert pfx cl preserve tc Hcl).
+    apply pieces_skip_inert; [assumption | apply phonetic_legal; assumption].
+  - apply pieces_skip_inert; assumption.
 Qed.
 
 (* plain form, any namespace prefix: the text of the first <t>, whatever phonetic data follows *)
@@ -232,17 +258,18 @@ Proof.
   intros pfx cl preserve tc after rest Hp Hcl Ha. unfold read_string, item_events.
   rewrite <- app_assoc.
   rewrite (rs_run_steps _ _ _ _ _ (t_elt_plain (qn pfx cl) pfx preserve tc Hp)).
-  rewrite (rs_run_steps _ _ _ _ _ (rs_steps_skip _ _ (tc_mtext tc) 0 (phonetics_skip_inert pfx cl after Hcl Ha))).
+  rewrite (rs_run_steps _ _ _ _ _ (rs_steps_skip _ _ (tc_mtext tc) 0
+             (pieces_skip_inert pfx cl after Hcl (phonetic_legal after Ha)))).
   cbn [rs_run rs_step]. rewrite str_eqb_refl. reflexivity.
 Qed.
 
-(* ---------- the rich path (default namespace: see class F34 for prefixed names) ---------- *)
-Definition outer_inert (cl : str) (e : event) : bool :=
+(* ---------- the rich path, any namespace prefix ---------- *)
+Definition outer_inert (closing : str) (e : event) : bool :=
   match e with
   | Start n _ =>
     let l := local_name n in
     negb (str_eqb l n_r) && negb (str_eqb l n_rPh) && negb (str_eqb l n_t)
-  | End n => let l := local_name n in negb (str_eqb l cl) && negb (str_eqb l n_rPh)
+  | End n => negb (str_eqb n closing) && negb (str_eqb (local_name n) n_rPh)
   | _ => true
   end.
 
@@ -257,7 +284,7 @@ Proof.
   - cbv zeta in H1. destruct (str_eqb (local_name n) n_r); [discriminate|].
     destruct (str_eqb (local_name n) n_rPh); [discriminate|].
     destruct (str_eqb (local_name n) n_t); [discriminate|]. cbn [andb]. apply IH. exact H2.
-  - cbv zeta in H1. destruct (str_eqb (local_name n) cl); [discriminate|].
+  - destruct (str_eqb n cl); [discriminate|].
     destruct (str_eqb (local_name n) n_rPh); [discriminate|]. apply IH. exact H2.
 Qed.
 
@@ -267,18 +294,15 @@ Proof.
   rewrite IH. destruct c; reflexivity.
 Qed.
 
-Lemma local_name_nocolon : forall n, no_colon n = true -> local_name n = n.
-Proof. intros n H. unfold local_name. rewrite after_colon_none by exact H. reflexivity. Qed.
-
-Lemma rpr_children_inert : forall cl rpr, cl_ok cl ->
+Lemma rpr_children_inert : forall pfx cl rpr, no_colon pfx = true -> cl_ok cl ->
   forallb (fun na => rpr_name_ok (fst na)) rpr = true ->
-  forallb (outer_inert cl) (flat_map (fun na => elt [] (fst na) (snd na) []) rpr) = true.
+  forallb (outer_inert (qn pfx cl)) (flat_map (fun na => elt pfx (fst na) (snd na) []) rpr) = true.
 Proof.
-  induction rpr as [|[n a] rpr IH]; intros Hcl H; [reflexivity|].
+  induction rpr as [|[n a] rpr IH]; intros Hp Hcl H; [reflexivity|].
   cbn [forallb fst] in H. apply andb_true_iff in H. destruct H as [H1 H2].
-  cbn [flat_map fst snd elt qn app forallb outer_inert]. rewrite (IH Hcl H2).
+  cbn [flat_map fst snd elt app forallb outer_inert]. rewrite (IH Hp Hcl H2).
   unfold rpr_name_ok in H1. repeat (apply andb_true_iff in H1; destruct H1 as [H1 ?]).
-  rewrite (local_name_nocolon n H1).
+  rewrite (local_name_qn pfx n Hp H1), !str_eqb_qn.
   destruct (str_eqb n n_r); [discriminate|]. destruct (str_eqb n n_rPh); [discriminate|].
   destruct (str_eqb n n_t); [discriminate|].
   destruct Hcl; subst cl.
@@ -286,27 +310,30 @@ Proof.
   - destruct (str_eqb n n_is); [discriminate|]. reflexivity.
 Qed.
 
-Lemma rpr_block_inert : forall cl rpr, cl_ok cl ->
+Lemma rpr_block_inert : forall pfx cl rpr, no_colon pfx = true -> cl_ok cl ->
   forallb (fun na => rpr_name_ok (fst na)) rpr = true ->
-  forallb (outer_inert cl)
+  forallb (outer_inert (qn pfx cl))
     (match rpr with
      | [] => []
-     | _ => elt [] n_rPr [] (flat_map (fun na => elt [] (fst na) (snd na) []) rpr)
+     | _ => elt pfx n_rPr [] (flat_map (fun na => elt pfx (fst na) (snd na) []) rpr)
      end) = true.
 Proof.
-  intros cl rpr Hcl H. destruct rpr as [|na rpr]; [reflexivity|].
-  unfold elt at 1. cbn [qn forallb]. rewrite forallb_app.
-  rewrite (rpr_children_inert cl (na :: rpr) Hcl H).
-  cbn [forallb outer_inert]. destruct Hcl; subst cl; reflexivity.
+  intros pfx cl rpr Hp Hcl H. destruct rpr as [|na rpr]; [reflexivity|].
+  unfold elt at 1. cbn [forallb]. rewrite forallb_app.
+  rewrite (rpr_children_inert pfx cl (na :: rpr) Hp Hcl H).
+  cbn [forallb outer_inert]. rewrite (local_name_qn pfx n_rPr Hp no_colon_rPr), !str_eqb_qn.
+  destruct Hcl; subst cl; reflexivity.
 Qed.
 
 (* <t> inside <rPh>: ignored *)
-Lemma t_elt_phon : forall cl preserve tc rich, cl_ok cl ->
-  rs_steps cl (RsOuter rich true) (t_elt [] preserve tc) = Some (RsOuter rich true).
+Lemma t_elt_phon : forall pfx cl preserve tc rich, no_colon pfx = true -> cl_ok cl ->
+  rs_steps (qn pfx cl) (RsOuter rich true) (t_elt pfx preserve tc) = Some (RsOuter rich true).
 Proof.
-  intros cl preserve tc rich Hcl. unfold t_elt, elt. cbn [qn rs_steps rs_step]. sc.
+  intros pfx cl preserve tc rich Hp Hcl. unfold t_elt, elt. cbn [rs_steps rs_step].
+  rewrite (local_name_qn pfx n_t Hp no_colon_t). sc.
   eapply rs_steps_app; [apply rs_steps_outer_inert, tc_events_outer_inert|].
-  cbn [rs_steps rs_step]. destruct Hcl; subst cl; sc; reflexivity.
+  cbn [rs_steps rs_step]. rewrite (local_name_qn pfx n_t Hp no_colon_t), str_eqb_qn.
+  destruct Hcl; subst cl; sc; reflexivity.
 Qed.
 
 Definition rich_step (acc : option str) (p : piece) : option str :=
@@ -317,42 +344,52 @@ Definition rich_step (acc : option str) (p : piece) : option str :=
 Definition rich_after (rich : option str) (ps : list piece) : option str :=
   fold_left rich_step ps rich.
 
-Lemma piece_steps : forall cl p rich, cl_ok cl -> legal_piece p = true ->
-  rs_steps cl (RsOuter rich false) (piece_events [] p) = Some (RsOuter (rich_step rich p) false).
+Lemma piece_steps : forall pfx cl p rich, no_colon pfx = true -> cl_ok cl -> legal_piece p = true ->
+  rs_steps (qn pfx cl) (RsOuter rich false) (piece_events pfx p) =
+  Some (RsOuter (rich_step rich p) false).
 Proof.
-  intros cl p rich Hcl Hl. destruct p as [rpr pres tc|tc|]; unfold piece_events, elt at 1.
+  intros pfx cl p rich Hp Hcl Hl. destruct p as [rpr pres tc|tc|]; unfold piece_events, elt at 1.
   - (* <r> *)
-    cbn [qn rs_steps rs_step legal_piece] in *. sc.
+    cbn [rs_steps rs_step legal_piece] in *. rewrite (local_name_qn pfx n_r Hp no_colon_r). sc.
     eapply rs_steps_app.
     { eapply rs_steps_app.
       - apply rs_steps_outer_inert. apply rpr_block_inert; assumption.
-      - apply t_elt_rich. reflexivity. }
+      - apply t_elt_rich. exact Hp. }
     cbn [rs_steps rs_step rich_step unwrap_or_default].
+    rewrite (local_name_qn pfx n_r Hp no_colon_r), str_eqb_qn.
     destruct Hcl; subst cl; sc; destruct rich; reflexivity.
   - (* <rPh> *)
-    cbn [qn rs_steps rs_step]. sc.
+    cbn [rs_steps rs_step]. rewrite (local_name_qn pfx n_rPh Hp no_colon_rPh). sc.
     eapply rs_steps_app; [apply t_elt_phon; assumption|].
-    cbn [rs_steps rs_step rich_step]. destruct Hcl; subst cl; sc; reflexivity.
+    cbn [rs_steps rs_step rich_step]. rewrite (local_name_qn pfx n_rPh Hp no_colon_rPh), str_eqb_qn.
+    destruct Hcl; subst cl; sc; reflexivity.
   - (* <phoneticPr/> *)
-    cbn [qn app rs_steps rs_step rich_step]. destruct Hcl; subst cl; sc; reflexivity.
+    cbn [app rs_steps rs_step rich_step].
+    rewrite (local_name_qn pfx n_phoneticPr Hp no_colon_phoneticPr). sc.
+    cbn [rs_step]. rewrite (local_name_qn pfx n_phoneticPr Hp no_colon_phoneticPr), str_eqb_qn.
+    destruct Hcl; subst cl; sc; reflexivity.
 Qed.
 
-Lemma pieces_steps : forall cl ps rich, cl_ok cl -> forallb legal_piece ps = true ->
-  rs_steps cl (RsOuter rich false) (flat_map (piece_events []) ps) =
+Lemma pieces_steps : forall pfx cl ps rich, no_colon pfx = true -> cl_ok cl ->
+  forallb legal_piece ps = true ->
+  rs_steps (qn pfx cl) (RsOuter rich false) (flat_map (piece_events pfx) ps) =
   Some (RsOuter (rich_after rich ps) false).
 Proof.
-  induction ps as [|p ps IH]; intros rich Hcl H; [reflexivity|].
+  induction ps as [|p ps IH]; intros rich Hp Hcl H; [reflexivity|].
   cbn [forallb] in H. apply andb_true_iff in H. destruct H as [H1 H2].
   cbn [flat_map]. eapply rs_steps_app; [apply piece_steps; assumption|].
   unfold rich_after. cbn [fold_left]. apply IH; assumption.
 Qed.
 
-Lemma read_string_rich : forall cl ps rest, cl_ok cl -> forallb legal_piece ps = true ->
-  read_string cl (item_events [] (FRich ps) ++ End cl :: rest) = Ok (rich_after None ps, rest).
+(* rich and empty items end at their own end tag under every prefix (repaired class F34) *)
+Lemma read_string_rich : forall pfx cl ps rest, no_colon pfx = true -> cl_ok cl ->
+  forallb legal_piece ps = true ->
+  read_string (qn pfx cl) (item_events pfx (FRich ps) ++ End (qn pfx cl) :: rest) =
+  Ok (rich_after None ps, rest).
 Proof.
-  intros cl ps rest Hcl H. unfold read_string, item_events.
-  rewrite (rs_run_steps _ _ _ _ _ (pieces_steps cl ps None Hcl H)).
-  cbn [rs_run rs_step]. destruct Hcl; subst cl; sc; reflexivity.
+  intros pfx cl ps rest Hp Hcl H. unfold read_string, item_events.
+  rewrite (rs_run_steps _ _ _ _ _ (pieces_steps pfx cl ps None Hp Hcl H)).
+  cbn [rs_run rs_step]. rewrite str_eqb_refl. reflexivity.
 Qed.
 
 (* runs concatenate in order; phonetic pieces leave the buffer untouched *)
@@ -387,60 +424,111 @@ Lemma pieces_mtext_text : forall ps, existsb piece_bad ps = false ->
 Proof.
   induction ps as [|p ps IH]; intro H; [reflexivity|].
   cbn [existsb] in H. apply orb_false_iff in H. destruct H as [H1 H2].
-  cbn [flat_map]. rewrite (IH H2). f_equal.
-  destruct p as [rpr pres tc|tc|]; try reflexivity.
-  cbn [piece_mtext piece_text piece_bad] in *. apply tc_mtext_no_cdata. exact H1.
+  cbn [flat_map]. rewrite (IH H2).
+  destruct p as [rpr pres tc|tc|]; [|reflexivity|reflexivity].
+  cbn [piece_mtext piece_text piece_bad] in *. rewrite (tc_mtext_not_bad tc H1). reflexivity.
 Qed.
 
-(* what read_string returns on any legal form that it can close (CDATA content dropped) *)
+(* what read_string returns on any legal form: the characters of every <t> outside phonetic
+   runs, Text and CDATA alike, in order (the ST_Xstring layer as the switch says) *)
 Definition item_mresult (f : item_form) : option str :=
   match f with
   | FPlain _ tc _ => Some (tc_mtext tc)
   | FRich ps => rich_after None ps
   end.
 
-Lemma read_string_item_m : forall pfx cl f rest,
-  no_colon pfx = true -> cl_ok cl -> legal_form f = true -> item_has_f34 pfx f = false ->
+Theorem read_string_item_m : forall pfx cl f rest,
+  no_colon pfx = true -> cl_ok cl -> legal_form f = true ->
   read_string (qn pfx cl) (item_events pfx f ++ End (qn pfx cl) :: rest) = Ok (item_mresult f, rest).
 Proof.
-  intros pfx cl f rest Hp Hcl Hl Hk. destruct f as [preserve tc after|ps].
+  intros pfx cl f rest Hp Hcl Hl. destruct f as [preserve tc after|ps].
   - cbn [legal_form item_mresult] in *. apply read_string_plain; assumption.
-  - cbn [legal_form item_has_f34 item_mresult] in *.
-    destruct pfx as [|x pfx]; [|discriminate]. cbn [qn]. apply read_string_rich; assumption.
+  - cbn [legal_form item_mresult] in *. apply read_string_rich; assumption.
 Qed.
 
-Lemma item_mresult_known : forall pfx f, known_item pfx f = None -> item_mresult f = item_result f.
+Lemma item_mresult_known : forall f, known_item f = None -> item_mresult f = item_result f.
 Proof.
-  intros pfx [preserve tc after|ps] Hk; cbn [known_item item_mresult item_result] in *.
-  - destruct (tc_bad tc) eqn:E; [discriminate|]. rewrite (tc_mtext_no_cdata tc E). reflexivity.
-  - destruct pfx; [|discriminate]. rewrite rich_after_spec.
+  intros [preserve tc after|ps] Hk; cbn [known_item item_mresult item_result] in *.
+  - destruct (tc_bad tc) eqn:E; [discriminate|]. rewrite (tc_mtext_not_bad tc E). reflexivity.
+  - rewrite rich_after_spec.
     destruct (existsb piece_bad ps) eqn:E; [discriminate|].
     rewrite (pieces_mtext_text ps E). reflexivity.
 Qed.
 
-Lemma known_item_no_f34 : forall pfx f, known_item pfx f = None -> item_has_f34 pfx f = false.
-Proof. intros pfx [preserve tc after|ps] H; [reflexivity|]. destruct pfx; [reflexivity|discriminate]. Qed.
-
-(* MAIN (per item): every legal form outside the known classes reads back as its text *)
+(* MAIN (per item): every legal form outside the known class reads back as its text *)
 Theorem read_string_item : forall pfx cl f rest,
-  no_colon pfx = true -> cl_ok cl -> legal_form f = true -> known_item pfx f = None ->
+  no_colon pfx = true -> cl_ok cl -> legal_form f = true -> known_item f = None ->
   read_string (qn pfx cl) (item_events pfx f ++ End (qn pfx cl) :: rest) = Ok (item_result f, rest).
 Proof.
   intros pfx cl f rest Hp Hcl Hl Hk.
-  rewrite read_string_item_m; try assumption; [|apply known_item_no_f34; exact Hk].
-  rewrite (item_mresult_known pfx f Hk). reflexivity.
+  rewrite read_string_item_m by assumption.
+  rewrite (item_mresult_known f Hk). reflexivity.
 Qed.
 
 (* the named consequences *)
-Theorem runs_concatenate : forall cl ps rest,
-  cl_ok cl -> forallb legal_piece ps = true -> known_item [] (FRich ps) = None ->
+Theorem runs_concatenate : forall pfx cl ps rest,
+  no_colon pfx = true -> cl_ok cl -> forallb legal_piece ps = true ->
+  known_item (FRich ps) = None ->
   existsb (fun p => negb (is_phonetic p)) ps = true ->
-  read_string cl (flat_map (piece_events []) ps ++ End cl :: rest) =
+  read_string (qn pfx cl) (flat_map (piece_events pfx) ps ++ End (qn pfx cl) :: rest) =
   Ok (Some (flat_map piece_text ps), rest).
 Proof.
-  intros cl ps rest Hcl Hl Hk Hr.
-  pose proof (read_string_item [] cl (FRich ps) rest eq_refl Hcl Hl Hk) as H.
-  cbn [qn item_events item_result] in H. rewrite Hr in H. exact H.
+  intros pfx cl ps rest Hp Hcl Hl Hk Hr.
+  pose proof (read_string_item pfx cl (FRich ps) rest Hp Hcl Hl Hk) as H.
+  cbn [item_events item_result] in H. rewrite Hr in H. exact H.
+Qed.
+
+(* ---------- CDATA sections are text (repaired class F12) ---------- *)
+Definition uncdata_tc (tc : tcontent) : tcontent :=
+  map (fun c => match c with TcCData s => TcText s | _ => c end) tc.
+Definition uncdata_piece (p : piece) : piece :=
+  match p with
+  | PRun rpr preserve tc => PRun rpr preserve (uncdata_tc tc)
+  | PPhon tc => PPhon (uncdata_tc tc)
+  | PPhonPr => PPhonPr
+  end.
+Definition uncdata_form (f : item_form) : item_form :=
+  match f with
+  | FPlain preserve tc after => FPlain preserve (uncdata_tc tc) (map uncdata_piece after)
+  | FRich ps => FRich (map uncdata_piece ps)
+  end.
+
+Lemma uncdata_raw : forall tc, tc_raw (uncdata_tc tc) = tc_raw tc.
+Proof.
+  induction tc as [|c tc IH]; [reflexivity|]. unfold tc_raw, uncdata_tc in *. cbn [map flat_map].
+  rewrite IH. destruct c; reflexivity.
+Qed.
+
+Lemma uncdata_mtext : forall tc, tc_mtext (uncdata_tc tc) = tc_mtext tc.
+Proof. intro tc. unfold tc_mtext. rewrite uncdata_raw. reflexivity. Qed.
+
+Lemma uncdata_pieces : forall ps,
+  forallb legal_piece (map uncdata_piece ps) = forallb legal_piece ps /\
+  forallb is_phonetic (map uncdata_piece ps) = forallb is_phonetic ps /\
+  forall acc, rich_after acc (map uncdata_piece ps) = rich_after acc ps.
+Proof.
+  induction ps as [|p ps (I1 & I2 & I3)]; [repeat split|].
+  cbn [map forallb]. rewrite I1, I2. unfold rich_after in *. cbn [fold_left].
+  destruct p as [rpr pres tc|tc|]; cbn [uncdata_piece legal_piece is_phonetic rich_step];
+    rewrite ?uncdata_mtext; repeat split; intros; apply I3.
+Qed.
+
+(* a CDATA section reads exactly like the same characters written as text: in every <t> of
+   every legal form, under every prefix, no known-class hypothesis *)
+Theorem cdata_is_text : forall pfx cl f rest,
+  no_colon pfx = true -> cl_ok cl -> legal_form f = true ->
+  read_string (qn pfx cl) (item_events pfx f ++ End (qn pfx cl) :: rest) =
+  read_string (qn pfx cl) (item_events pfx (uncdata_form f) ++ End (qn pfx cl) :: rest).
+Proof.
+  intros pfx cl f rest Hp Hcl Hl.
+  rewrite (read_string_item_m pfx cl f rest Hp Hcl Hl).
+  rewrite (read_string_item_m pfx cl (uncdata_form f) rest Hp Hcl).
+  - destruct f as [preserve tc after|ps]; cbn [uncdata_form item_mresult].
+    + rewrite uncdata_mtext. reflexivity.
+    + rewrite (proj2 (proj2 (uncdata_pieces ps))). reflexivity.
+  - destruct f as [preserve tc after|ps]; cbn [uncdata_form legal_form] in *.
+    + rewrite (proj1 (proj2 (uncdata_pieces after))). exact Hl.
+    + rewrite (proj1 (uncdata_pieces ps)). exact Hl.
 Qed.
 
 Definition strip_phonetic (f : item_form) : item_form :=
@@ -472,10 +560,9 @@ Proof.
   destruct (negb (is_phonetic p)); [cbn [forallb]; rewrite H1; apply IH; exact H2 | apply IH; exact H2].
 Qed.
 
-Lemma strip_known : forall pfx f, known_item pfx f = None -> known_item pfx (strip_phonetic f) = None.
+Lemma strip_known : forall f, known_item f = None -> known_item (strip_phonetic f) = None.
 Proof.
-  intros pfx [preserve tc after|ps] H; [exact H|]. cbn [known_item strip_phonetic] in *.
-  destruct pfx; [|discriminate].
+  intros [preserve tc after|ps] H; [exact H|]. cbn [known_item strip_phonetic] in *.
   destruct (existsb piece_bad ps) eqn:E; [discriminate|].
   assert (E' : existsb piece_bad (filter (fun p => negb (is_phonetic p)) ps) = false).
   { clear H. induction ps as [|p ps IH]; [reflexivity|]. cbn [existsb] in E.
@@ -487,7 +574,7 @@ Qed.
 (* phonetic runs and phonetic properties contribute nothing: removing them from the item does
    not change what is read *)
 Theorem phonetic_contributes_nothing : forall pfx cl f rest rest',
-  no_colon pfx = true -> cl_ok cl -> legal_form f = true -> known_item pfx f = None ->
+  no_colon pfx = true -> cl_ok cl -> legal_form f = true -> known_item f = None ->
   exists r,
     read_string (qn pfx cl) (item_events pfx f ++ End (qn pfx cl) :: rest) = Ok (r, rest) /\
     read_string (qn pfx cl) (item_events pfx (strip_phonetic f) ++ End (qn pfx cl) :: rest') = Ok (r, rest').
@@ -526,90 +613,79 @@ Lemma no_colon_si : no_colon n_si = true. Proof. reflexivity. Qed.
 Lemma no_colon_sst : no_colon n_sst = true. Proof. reflexivity. Qed.
 
 Definition item_mtext (f : item_form) : str := unwrap_or_default (item_mresult f).
-Definition no_f34 (pfx : str) (items : list (str * item_form)) : bool :=
-  negb (existsb (fun it => item_has_f34 pfx (snd it)) items).
 
 Lemma sst_items_m : forall pfx items racc tail,
   no_colon pfx = true ->
-  forallb (fun it => legal_form (snd it)) items = true -> no_f34 pfx items = true ->
+  forallb (fun it => legal_form (snd it)) items = true ->
   sst_run None racc (flat_map (fun it => Text (fst it) :: si_elt pfx (snd it)) items ++ tail) =
   sst_run None (rev (map (fun it => item_mtext (snd it)) items) ++ racc) tail.
 Proof.
-  induction items as [|[ws f] items IH]; intros racc tail Hp Hl Hk; [reflexivity|].
+  induction items as [|[ws f] items IH]; intros racc tail Hp Hl; [reflexivity|].
   cbn [forallb snd] in Hl. apply andb_true_iff in Hl. destruct Hl as [Hl1 Hl2].
-  unfold no_f34 in *. cbn [existsb snd] in Hk. apply negb_true_iff in Hk.
-  apply orb_false_iff in Hk. destruct Hk as [Hk1 Hk2].
   cbn [flat_map fst snd app sst_run]. unfold si_elt, elt. cbn [app sst_run].
   rewrite (local_name_qn _ _ Hp no_colon_si). sc.
   rewrite <- !app_assoc. cbn [app].
   rewrite (sst_run_item _ _ _ racc (item_mresult f)
              (flat_map (fun it => Text (fst it) :: si_elt pfx (snd it)) items ++ tail)).
   2:{ apply (read_string_item_m pfx n_si f); try assumption. left. reflexivity. }
-  rewrite (IH _ tail Hp Hl2); [|apply negb_true_iff; exact Hk2].
+  rewrite (IH _ tail Hp Hl2).
   cbn [map rev snd]. rewrite <- app_assoc. reflexivity.
 Qed.
 
 (* the table as the reader sees it: one entry per item, in order, whatever the items hold *)
 Theorem read_shared_strings_items_m : forall pfx sattrs items,
   no_colon pfx = true ->
-  forallb (fun it => legal_form (snd it)) items = true -> no_f34 pfx items = true ->
+  forallb (fun it => legal_form (snd it)) items = true ->
   read_shared_strings (sst_events pfx sattrs items) = Ok (map (fun it => item_mtext (snd it)) items).
 Proof.
-  intros pfx sattrs items Hp Hl Hk. unfold read_shared_strings, sst_events.
+  intros pfx sattrs items Hp Hl. unfold read_shared_strings, sst_events.
   cbn [sst_run]. rewrite (local_name_qn _ _ Hp no_colon_sst). sc.
-  rewrite (sst_items_m pfx items [] [End (qn pfx n_sst)] Hp Hl Hk).
+  rewrite (sst_items_m pfx items [] [End (qn pfx n_sst)] Hp Hl).
   cbn [sst_run]. rewrite (local_name_qn _ _ Hp no_colon_sst). sc.
   rewrite app_nil_r, rev_involutive. reflexivity.
 Qed.
 
-Lemma item_mtext_known : forall pfx f, known_item pfx f = None -> item_mtext f = item_text f.
+Lemma item_mtext_known : forall f, known_item f = None -> item_mtext f = item_text f.
 Proof.
-  intros pfx f H. unfold item_mtext. rewrite (item_mresult_known pfx f H). apply item_result_text.
+  intros f H. unfold item_mtext. rewrite (item_mresult_known f H). apply item_result_text.
 Qed.
 
-Lemma known_items_no_f34 : forall pfx items, known_items pfx items = None -> no_f34 pfx items = true.
-Proof.
-  induction items as [|[ws f] items IH]; intro H; [reflexivity|].
-  cbn [known_items fold_right snd] in H. destruct (known_item pfx f) eqn:E; [discriminate|].
-  unfold no_f34 in *. cbn [existsb snd]. rewrite (known_item_no_f34 pfx f E). cbn [orb]. apply IH. exact H.
-Qed.
-
-Lemma known_items_mtext : forall pfx items, known_items pfx items = None ->
+Lemma known_items_mtext : forall items, known_items items = None ->
   map (fun it => item_mtext (snd it)) items = map (fun it => item_text (snd it)) items.
 Proof.
   induction items as [|[ws f] items IH]; intro H; [reflexivity|].
-  cbn [known_items fold_right snd] in H. destruct (known_item pfx f) eqn:E; [discriminate|].
-  cbn [map snd]. rewrite (item_mtext_known pfx f E). f_equal. apply IH. exact H.
+  cbn [known_items fold_right snd] in H. destruct (known_item f) eqn:E; [discriminate|].
+  cbn [map snd]. rewrite (item_mtext_known f E). f_equal. apply IH. exact H.
 Qed.
 
 (* MAIN (table): the i-th string of the table is the text of the i-th item, empty items included *)
 Theorem read_shared_strings_items : forall pfx sattrs items,
   no_colon pfx = true ->
-  forallb (fun it => legal_form (snd it)) items = true -> known_items pfx items = None ->
+  forallb (fun it => legal_form (snd it)) items = true -> known_items items = None ->
   read_shared_strings (sst_events pfx sattrs items) = Ok (map (fun it => item_text (snd it)) items).
 Proof.
   intros pfx sattrs items Hp Hl Hk.
-  rewrite read_shared_strings_items_m; try assumption; [|apply known_items_no_f34; exact Hk].
-  rewrite (known_items_mtext pfx items Hk). reflexivity.
+  rewrite read_shared_strings_items_m by assumption.
+  rewrite (known_items_mtext items Hk). reflexivity.
 Qed.
 
-(* positions are kept even when some items fall into class F12: only those items are spoilt *)
+(* positions are kept whatever the items hold: an item of class F37 spoils only itself *)
 Theorem shared_table_positional : forall pfx sattrs items,
   no_colon pfx = true ->
-  forallb (fun it => legal_form (snd it)) items = true -> no_f34 pfx items = true ->
+  forallb (fun it => legal_form (snd it)) items = true ->
   exists strs, read_shared_strings (sst_events pfx sattrs items) = Ok strs /\
     length strs = length items /\
-    forall i ws f, nth_error items i = Some (ws, f) -> known_item pfx f = None ->
+    forall i ws f, nth_error items i = Some (ws, f) -> known_item f = None ->
       nth_error strs i = Some (item_text f).
 Proof.
-  intros pfx sattrs items Hp Hl Hk. eexists. split; [apply read_shared_strings_items_m; assumption|].
+  intros pfx sattrs items Hp Hl. eexists. split; [apply read_shared_strings_items_m; assumption|].
   split; [apply map_length|]. intros i ws f Hi Hf.
-  rewrite nth_error_map, Hi. cbn [option_map snd]. rewrite (item_mtext_known pfx f Hf). reflexivity.
+  rewrite nth_error_map, Hi. cbn [option_map snd]. rewrite (item_mtext_known f Hf). reflexivity.
 Qed.
 
 Theorem shared_index_is_ith_item : forall pfx sattrs items,
   no_colon pfx = true ->
-  forallb (fun it => legal_form (snd it)) items = true -> known_items pfx items = None ->
+  forallb (fun it => legal_form (snd it)) items = true -> known_items items = None ->
   exists strs, read_shared_strings (sst_events pfx sattrs items) = Ok strs /\
     length strs = length items /\
     forall i, nth_error strs i = option_map (fun it => item_text (snd it)) (nth_error items i).
@@ -673,15 +749,16 @@ Proof.
   - inversion H; subst. reflexivity.
 Qed.
 
+(* inside <v>: every chunk is appended, Text and CDATA alike *)
 Lemma cc_steps_in_v : forall strings ca vn tc acc,
-  cc_steps strings ca (CcInV vn acc) (tc_events tc) = Some (CcInV vn (acc ++ tc_mtext tc)).
+  cc_steps strings ca (CcInV vn acc) (tc_events tc) = Some (CcInV vn (acc ++ tc_raw tc)).
 Proof.
   induction tc as [|c tc IH]; intro acc.
   - cbn. rewrite app_nil_r. reflexivity.
-  - unfold tc_events, tc_mtext in *. cbn [map flat_map cc_steps].
+  - unfold tc_events, tc_raw in *. cbn [map flat_map cc_steps].
     destruct c as [s|s|]; cbn [cc_step]; rewrite IH.
     + rewrite app_assoc. reflexivity.
-    + reflexivity.
+    + rewrite app_assoc. reflexivity.
     + reflexivity.
 Qed.
 
@@ -709,7 +786,7 @@ Proof.
   unfold read_v, cell_attrs. cbn [get_attribute]. sc. reflexivity.
 Qed.
 
-(* <f>…</f> is skipped *)
+(* <f>…</f> is skipped by read_value *)
 Lemma f_elt_skipped : forall strings ca pfx tc value, no_colon pfx = true ->
   cc_steps strings ca (CcOuter value) (elt pfx n_f [] (tc_events tc)) = Some (CcOuter CEmpty).
 Proof.
@@ -719,22 +796,25 @@ Proof.
   cbn [cc_steps cc_step]. rewrite str_eqb_refl. reflexivity.
 Qed.
 
-(* MAIN (cell): shared / inline / formula-string storage *)
-Theorem read_cell_store : forall pfx strings ref st rest,
-  no_colon pfx = true -> legal_store st = true -> known_store pfx st = None ->
-  read_cell strings (cell_attrs ref st) (cell_events pfx st ++ rest) =
+(* what the cell loop returns for every legal storage form (no known-class hypothesis) *)
+Definition store_mresult (strings : list str) (st : store) : outcome cellval :=
   match st with
   | StShared v =>
     match nth_error strings (N.to_nat (match parse_usize v with Some i => i | None => 0 end)) with
-    | Some s => Ok (CString s, rest)
+    | Some s => Ok (CString s)
     | None => Panic
     end
-  | StInline f => Ok (match item_result f with Some s => CString s | None => CEmpty end, rest)
-  | StFormula _ vtc => Ok (CString (tc_text vtc), rest)
+  | StInline f => Ok (match item_mresult f with Some s => CString s | None => CEmpty end)
+  | StFormula _ vtc => Ok (CString (tc_mtext vtc))
   end.
+
+Theorem read_cell_store_m : forall pfx strings ref st rest,
+  no_colon pfx = true -> legal_store st = true ->
+  read_cell strings (cell_attrs ref st) (cell_events pfx st ++ rest) =
+  do v <- store_mresult strings st; Ok (v, rest).
 Proof.
-  intros pfx strings ref st rest Hp Hl Hk. unfold read_cell, cell_events.
-  destruct st as [v|f|ftc vtc].
+  intros pfx strings ref st rest Hp Hl. unfold read_cell, cell_events.
+  destruct st as [v|f|ftc vtc]; cbn [store_mresult].
   - (* shared *)
     unfold elt. cbn [app].
     rewrite cc_run_cons. cbn [cc_step]. rewrite (local_name_qn _ _ Hp no_colon_v). sc.
@@ -748,22 +828,41 @@ Proof.
     destruct (nth_error strings (N.to_nat idx)); [|reflexivity].
     rewrite cc_run_cons. cbn [cc_step]. rewrite (local_name_qn _ _ Hp no_colon_c). sc. reflexivity.
   - (* inline *)
-    cbn [legal_store known_store] in *. unfold elt. cbn [app cc_run cc_step].
+    cbn [legal_store] in *. unfold elt. cbn [app cc_run cc_step].
     rewrite (local_name_qn _ _ Hp no_colon_is). sc. rewrite <- !app_assoc. cbn [app].
-    rewrite (cc_run_is strings _ _ _ _ (item_result f) (End (qn pfx n_c) :: rest)).
-    2:{ apply (read_string_item pfx n_is f); try assumption. right. reflexivity. }
-    cbn [cc_run cc_step]. rewrite (local_name_qn _ _ Hp no_colon_c). sc. reflexivity.
+    rewrite (cc_run_is strings _ _ _ _ (item_mresult f) (End (qn pfx n_c) :: rest)).
+    2:{ apply (read_string_item_m pfx n_is f); try assumption. right. reflexivity. }
+    cbn [cc_run cc_step obind]. rewrite (local_name_qn _ _ Hp no_colon_c). sc. reflexivity.
   - (* formula string *)
-    cbn [known_store] in Hk. destruct (tc_bad vtc) eqn:E; [discriminate|].
     rewrite <- !app_assoc.
     rewrite (cc_run_steps _ _ _ _ _ _ (f_elt_skipped strings _ pfx ftc CEmpty Hp)).
     rewrite (cc_run_steps _ _ _ _ _ _ (v_elt_str strings ref pfx ftc vtc CEmpty Hp)).
-    cbn [app cc_run cc_step]. rewrite (local_name_qn _ _ Hp no_colon_c). sc.
-    rewrite (tc_mtext_no_cdata vtc E). reflexivity.
+    cbn [app cc_run cc_step obind]. rewrite (local_name_qn _ _ Hp no_colon_c). sc. reflexivity.
+Qed.
+
+(* MAIN (cell): shared / inline / formula-string storage *)
+Theorem read_cell_store : forall pfx strings ref st rest,
+  no_colon pfx = true -> legal_store st = true -> known_store st = None ->
+  read_cell strings (cell_attrs ref st) (cell_events pfx st ++ rest) =
+  match st with
+  | StShared v =>
+    match nth_error strings (N.to_nat (match parse_usize v with Some i => i | None => 0 end)) with
+    | Some s => Ok (CString s, rest)
+    | None => Panic
+    end
+  | StInline f => Ok (match item_result f with Some s => CString s | None => CEmpty end, rest)
+  | StFormula _ vtc => Ok (CString (tc_text vtc), rest)
+  end.
+Proof.
+  intros pfx strings ref st rest Hp Hl Hk. rewrite read_cell_store_m by assumption.
+  destruct st as [v|f|ftc vtc]; cbn [store_mresult known_store] in *.
+  - destruct (nth_error strings _); reflexivity.
+  - rewrite (item_mresult_known f Hk). reflexivity.
+  - destruct (tc_bad vtc) eqn:E; [discriminate|]. rewrite (tc_mtext_not_bad vtc E). reflexivity.
 Qed.
 
 (* COMPOSITION: the text stored in an xlsx cell, in any storage form outside the known
-   classes, is what the cell reader returns *)
+   class, is what the cell reader returns *)
 Lemma nth_N_map : forall (A B : Type) (g : A -> B) l i, nth_N (map g l) i = option_map g (nth_N l i).
 Proof.
   intros A B g l i. unfold nth_N. rewrite map_length.
@@ -779,34 +878,27 @@ Qed.
 (* a cell against the table as the reader built it *)
 Lemma cell_survives : forall pfx items ref st s rest,
   no_colon pfx = true -> legal_store st = true ->
-  known_xlsx pfx items st = None -> stored_text items st = Some s ->
+  known_xlsx items st = None -> stored_text items st = Some s ->
   read_cell (map (fun it => item_mtext (snd it)) items) (cell_attrs ref st) (cell_events pfx st ++ rest) =
   Ok (cell_expected st s, rest).
 Proof.
   intros pfx items ref st s rest Hp Hls Hk Hs. unfold known_xlsx in Hk.
-  destruct (existsb (fun it => item_has_f34 pfx (snd it)) items) eqn:Ef; [discriminate|].
   destruct st as [v|f|ftc vtc]; cbn [stored_text cell_expected] in *.
   - rewrite read_cell_store by (try assumption; reflexivity).
     destruct (parse_usize v) as [i|]; [|discriminate].
     rewrite <- nth_N_error, nth_N_map. destruct (nth_N items i) as [[ws f]|]; [|discriminate].
     cbn [option_map snd] in *. inversion Hs; subst.
-    rewrite (item_mtext_known pfx f Hk). reflexivity.
+    rewrite (item_mtext_known f Hk). reflexivity.
   - rewrite read_cell_store by assumption.
     inversion Hs; subst. destruct (item_result f) eqn:E; [|reflexivity].
     rewrite <- (item_result_text f), E. reflexivity.
   - rewrite read_cell_store by assumption. inversion Hs; subst. reflexivity.
 Qed.
 
-Lemma known_xlsx_no_f34 : forall pfx items st, known_xlsx pfx items st = None -> no_f34 pfx items = true.
-Proof.
-  intros pfx items st H. unfold known_xlsx in H. unfold no_f34.
-  destruct (existsb (fun it => item_has_f34 pfx (snd it)) items); [discriminate|reflexivity].
-Qed.
-
 Theorem text_survives_xlsx : forall pfx sattrs items ref st s rest,
   no_colon pfx = true ->
   forallb (fun it => legal_form (snd it)) items = true -> legal_store st = true ->
-  known_xlsx pfx items st = None ->
+  known_xlsx items st = None ->
   stored_text items st = Some s ->
   exists strings,
     read_shared_strings (sst_events pfx sattrs items) = Ok strings /\
@@ -814,7 +906,7 @@ Theorem text_survives_xlsx : forall pfx sattrs items ref st s rest,
 Proof.
   intros pfx sattrs items ref st s rest Hp Hli Hls Hk Hs.
   exists (map (fun it => item_mtext (snd it)) items). split.
-  - apply read_shared_strings_items_m; try assumption. apply (known_xlsx_no_f34 pfx items st Hk).
+  - apply read_shared_strings_items_m; assumption.
   - apply cell_survives; assumption.
 Qed.
 
@@ -829,10 +921,10 @@ Proof.
   - inversion H; subst. reflexivity.
 Qed.
 
-Definition cell_ok (pfx : str) (items : list (str * item_form)) (c : attrs * str * store) : bool :=
+Definition cell_ok (items : list (str * item_form)) (c : attrs * str * store) : bool :=
   let '(_, _, st) := c in
   legal_store st
-  && match known_xlsx pfx items st with None => true | Some _ => false end
+  && match known_xlsx items st with None => true | Some _ => false end
   && match stored_text items st with Some _ => true | None => false end.
 Definition cell_spec (items : list (str * item_form)) (c : attrs * str * store) : attrs * cellval :=
   let '(_, ref, st) := c in
@@ -843,7 +935,7 @@ Lemma no_colon_row : no_colon n_row = true. Proof. reflexivity. Qed.
 Lemma no_colon_sheetData : no_colon n_sheetData = true. Proof. reflexivity. Qed.
 
 Lemma sheet_cells_run : forall pfx items cells racc,
-  no_colon pfx = true -> forallb (cell_ok pfx items) cells = true ->
+  no_colon pfx = true -> forallb (cell_ok items) cells = true ->
   sheet_run (map (fun it => item_mtext (snd it)) items) None racc (sheet_events pfx cells) =
   Ok (rev racc ++ map (cell_spec items) cells).
 Proof.
@@ -854,7 +946,7 @@ Proof.
   - cbn [forallb] in H. apply andb_true_iff in H. destruct H as [H1 H2].
     unfold cell_ok in H1. apply andb_true_iff in H1. destruct H1 as [H1 Hs].
     apply andb_true_iff in H1. destruct H1 as [Hl Hk].
-    destruct (known_xlsx pfx items st) eqn:Ek; [discriminate|].
+    destruct (known_xlsx items st) eqn:Ek; [discriminate|].
     destruct (stored_text items st) as [s|] eqn:Es; [|discriminate].
     cbn [flat_map app sheet_run]. rewrite (local_name_qn _ _ Hp no_colon_row). sc.
     rewrite (local_name_qn _ _ Hp no_colon_c). sc.
@@ -872,16 +964,157 @@ Qed.
 (* COMPOSITION over a sheet: every text cell of every row reads back, in order *)
 Theorem sheet_text_survives : forall pfx sattrs items cells,
   no_colon pfx = true ->
-  forallb (fun it => legal_form (snd it)) items = true -> no_f34 pfx items = true ->
-  forallb (cell_ok pfx items) cells = true ->
+  forallb (fun it => legal_form (snd it)) items = true ->
+  forallb (cell_ok items) cells = true ->
   exists strings,
     read_shared_strings (sst_events pfx sattrs items) = Ok strings /\
     read_sheet_cells strings (sheet_events pfx cells) = Ok (map (cell_spec items) cells).
 Proof.
-  intros pfx sattrs items cells Hp Hl Hf Hc.
+  intros pfx sattrs items cells Hp Hl Hc.
   exists (map (fun it => item_mtext (snd it)) items). split.
   - apply read_shared_strings_items_m; assumption.
   - unfold read_sheet_cells. rewrite (sheet_cells_run pfx items cells [] Hp Hc). reflexivity.
+Qed.
+
+(* ====================================================================================== *)
+(*                       xlsx formula text (next_formula, read_formula)                    *)
+(* ====================================================================================== *)
+Fixpoint fc_steps (st : fc_state) (evs : list event) : option fc_state :=
+  match evs with
+  | [] => Some st
+  | e :: r =>
+    match fc_step st e with
+    | Cont st' => fc_steps st' r
+    | _ => None
+    end
+  end.
+
+Lemma fc_run_steps : forall evs st st' rest,
+  fc_steps st evs = Some st' -> fc_run st (evs ++ rest) = fc_run st' rest.
+Proof.
+  induction evs as [|e evs IH]; intros st st' rest H; cbn [fc_steps] in H.
+  - inversion H; subst. reflexivity.
+  - cbn [app fc_run]. destruct (fc_step st e); try discriminate. apply IH. exact H.
+Qed.
+
+Lemma fc_steps_app : forall a b st st1 st2,
+  fc_steps st a = Some st1 -> fc_steps st1 b = Some st2 -> fc_steps st (a ++ b) = Some st2.
+Proof.
+  induction a as [|e a IH]; intros b st st1 st2 Ha Hb; cbn [fc_steps] in Ha.
+  - inversion Ha; subst. exact Hb.
+  - cbn [app fc_steps]. destruct (fc_step st e); try discriminate. eapply IH; eassumption.
+Qed.
+
+(* inside <f>: every chunk is appended, Text and CDATA alike *)
+Lemma fc_steps_in_f : forall fn sh tc acc,
+  fc_steps (FcInF fn sh acc) (tc_events tc) = Some (FcInF fn sh (acc ++ tc_raw tc)).
+Proof.
+  induction tc as [|c tc IH]; intro acc.
+  - cbn. rewrite app_nil_r. reflexivity.
+  - unfold tc_events, tc_raw in *. cbn [map flat_map fc_steps].
+    destruct c as [s|s|]; cbn [fc_step]; rewrite IH.
+    + rewrite app_assoc. reflexivity.
+    + rewrite app_assoc. reflexivity.
+    + reflexivity.
+Qed.
+
+Lemma fc_steps_skip : forall name sh evs d v,
+  forallb (skip_inert name) evs = true ->
+  fc_steps (FcSkip name sh d v) evs = Some (FcSkip name sh d v).
+Proof.
+  induction evs as [|e evs IH]; intros d v H; [reflexivity|].
+  cbn [forallb] in H. apply andb_true_iff in H. destruct H as [H1 H2].
+  cbn [fc_steps]. destruct e as [n a|n|s|s|]; cbn [fc_step skip_inert] in *;
+    try (apply IH; exact H2).
+  - destruct (str_eqb n name); [discriminate|]. apply IH. exact H2.
+  - destruct (str_eqb n name); [discriminate|]. apply IH. exact H2.
+Qed.
+
+(* an element <is> or <v> without attributes: read_formula passes over it, the value stays *)
+Lemma fc_skip_elt : forall pfx l body value, no_colon pfx = true ->
+  l = n_is \/ l = n_v -> forallb (skip_inert (qn pfx l)) body = true ->
+  fc_steps (FcOuter value) (elt pfx l [] body) = Some (FcOuter value).
+Proof.
+  intros pfx l body value Hp Hl Hb. unfold elt. cbn [fc_steps fc_step].
+  assert (Hn : no_colon l = true) by (destruct Hl; subst l; reflexivity).
+  rewrite (local_name_qn _ _ Hp Hn).
+  assert (Hm : str_eqb l n_is || str_eqb l n_v = true) by (destruct Hl; subst l; reflexivity).
+  rewrite Hm. change (is_shared []) with false.
+  eapply fc_steps_app; [apply fc_steps_skip; exact Hb|].
+  cbn [fc_steps fc_step]. rewrite str_eqb_refl. reflexivity.
+Qed.
+
+Lemma f_elt_read : forall pfx tc value, no_colon pfx = true ->
+  fc_steps (FcOuter value) (elt pfx n_f [] (tc_events tc)) = Some (FcOuter (FvText (tc_raw tc))).
+Proof.
+  intros pfx tc value Hp. unfold elt. cbn [fc_steps fc_step].
+  rewrite (local_name_qn _ _ Hp no_colon_f). sc. change (is_shared []) with false.
+  eapply fc_steps_app; [apply fc_steps_in_f|].
+  cbn [fc_steps fc_step app]. rewrite str_eqb_refl. reflexivity.
+Qed.
+
+(* MAIN (formula text): the characters of <f>, Text and CDATA chunks alike; cells without <f>
+   have no formula *)
+Theorem read_fcell_store : forall pfx st rest,
+  no_colon pfx = true -> legal_store st = true ->
+  read_fcell (cell_events pfx st ++ rest) = Ok (formula_expected st, rest).
+Proof.
+  intros pfx st rest Hp Hl. unfold read_fcell, cell_events.
+  destruct st as [v|f|ftc vtc]; cbn [formula_expected]; rewrite <- !app_assoc.
+  - rewrite (fc_run_steps _ _ _ _ (fc_skip_elt pfx n_v [Text v] FvNone Hp (or_intror eq_refl) eq_refl)).
+    cbn [app fc_run fc_step]. rewrite (local_name_qn _ _ Hp no_colon_c). sc. reflexivity.
+  - cbn [legal_store] in Hl.
+    rewrite (fc_run_steps _ _ _ _ (fc_skip_elt pfx n_is (item_events pfx f) FvNone Hp (or_introl eq_refl)
+               (item_events_skip_inert pfx n_is f (or_intror eq_refl) Hl))).
+    cbn [app fc_run fc_step]. rewrite (local_name_qn _ _ Hp no_colon_c). sc. reflexivity.
+  - rewrite (fc_run_steps _ _ _ _ (f_elt_read pfx ftc FvNone Hp)).
+    rewrite (fc_run_steps _ _ _ _ (fc_skip_elt pfx n_v (tc_events vtc) (FvText (tc_raw ftc)) Hp
+               (or_intror eq_refl) (tc_events_skip_inert (qn pfx n_v) vtc))).
+    cbn [app fc_run fc_step]. rewrite (local_name_qn _ _ Hp no_colon_c). sc. reflexivity.
+Qed.
+
+Lemma fsheet_run_cell : forall ca evs st racc v rest,
+  fc_run st evs = Ok (v, rest) ->
+  fsheet_run (Some (ca, st)) racc evs = fsheet_run None ((ca, v) :: racc) rest.
+Proof.
+  induction evs as [|e evs IH]; intros st racc v rest H; cbn [fc_run] in H; [discriminate|].
+  cbn [fsheet_run]. destruct (fc_step st e) as [st'|r|c|]; try discriminate.
+  - apply IH. exact H.
+  - inversion H; subst. reflexivity.
+Qed.
+
+Definition fcell_spec (c : attrs * str * store) : attrs * fval :=
+  let '(_, ref, st) := c in (cell_attrs ref st, formula_expected st).
+
+Lemma sheet_formulas_run : forall pfx cells racc,
+  no_colon pfx = true -> forallb (fun c => legal_store (snd c)) cells = true ->
+  fsheet_run None racc (sheet_events pfx cells) = Ok (rev racc ++ map fcell_spec cells).
+Proof.
+  intros pfx cells. unfold sheet_events.
+  induction cells as [|[[ra ref] st] cells IH]; intros racc Hp H.
+  - cbn [flat_map app fsheet_run map]. rewrite (local_name_qn _ _ Hp no_colon_sheetData). sc.
+    rewrite app_nil_r. reflexivity.
+  - cbn [forallb snd] in H. apply andb_true_iff in H. destruct H as [Hl H2].
+    cbn [flat_map app fsheet_run]. rewrite (local_name_qn _ _ Hp no_colon_row). sc.
+    rewrite (local_name_qn _ _ Hp no_colon_c). sc.
+    rewrite <- !app_assoc.
+    rewrite (fsheet_run_cell _ _ _ racc (formula_expected st)
+              ([End (qn pfx n_row)] ++
+               flat_map (fun c => let '(rattrs, ref0, st0) := c in
+                           Start (qn pfx n_row) rattrs :: Start (qn pfx n_c) (cell_attrs ref0 st0) ::
+                           cell_events pfx st0 ++ [End (qn pfx n_row)]) cells ++ [End (qn pfx n_sheetData)])).
+    2:{ apply read_fcell_store; assumption. }
+    cbn [app fsheet_run]. rewrite (local_name_qn _ _ Hp no_colon_row). sc.
+    rewrite (IH _ Hp H2). cbn [rev map fcell_spec]. rewrite <- app_assoc. reflexivity.
+Qed.
+
+(* over a whole sheet, worksheet_formula's loop: the formula text of every cell, in order *)
+Theorem sheet_formulas_survive : forall pfx cells,
+  no_colon pfx = true -> forallb (fun c => legal_store (snd c)) cells = true ->
+  read_sheet_formulas (sheet_events pfx cells) = Ok (map fcell_spec cells).
+Proof.
+  intros pfx cells Hp H. unfold read_sheet_formulas.
+  rewrite (sheet_formulas_run pfx cells [] Hp H). reflexivity.
 Qed.
 
 (* ---------- every string has rich forms: cut it anywhere ---------- *)
@@ -896,12 +1129,15 @@ Qed.
 Definition cuts_ok (cuts : list nat) (s : str) : bool :=
   forallb (fun p => str_eqb (xunescape p) p) (chop cuts s).
 
+(* a run holding characters without escapes denotes them and is read as them, whatever the
+   switch says (this proof does not depend on the value of xstring_decode_on_read) *)
 Lemma run_piece_facts : forall p, str_eqb (xunescape p) p = true ->
   piece_text (PRun [] true [TcText p]) = p /\ piece_bad (PRun [] true [TcText p]) = false.
 Proof.
-  intros p H. cbn [piece_text piece_bad]. unfold tc_text, tc_bad, tc_has_xesc, tc_raw.
-  cbn [flat_map tc_has_cdata existsb orb]. rewrite app_nil_r, H. split; [|reflexivity].
-  apply str_eqb_eq. exact H.
+  intros p H. apply str_eqb_eq in H.
+  cbn [piece_text piece_bad]. unfold tc_bad, tc_mtext, tc_text, tc_raw, xstring_decode_on_read.
+  cbn [flat_map]. rewrite app_nil_r, ?H. split; [reflexivity|].
+  rewrite str_eqb_refl. reflexivity.
 Qed.
 
 Lemma runs_facts : forall l, forallb (fun p => str_eqb (xunescape p) p) l = true ->
@@ -922,7 +1158,7 @@ Proof.
 Qed.
 
 Lemma runs_of_legal : forall cuts s, cuts_ok cuts s = true ->
-  legal_form (runs_of cuts s) = true /\ known_item [] (runs_of cuts s) = None /\
+  legal_form (runs_of cuts s) = true /\ known_item (runs_of cuts s) = None /\
   item_result (runs_of cuts s) = Some s.
 Proof.
   intros cuts s H. pose proof (runs_of_text cuts s H) as Ht. unfold runs_of in *.
@@ -931,38 +1167,22 @@ Proof.
   destruct cuts; reflexivity.
 Qed.
 
-Theorem runs_at_any_cuts : forall cl cuts s rest, cl_ok cl -> cuts_ok cuts s = true ->
-  read_string cl (item_events [] (runs_of cuts s) ++ End cl :: rest) = Ok (Some s, rest).
+Theorem runs_at_any_cuts : forall pfx cl cuts s rest,
+  no_colon pfx = true -> cl_ok cl -> cuts_ok cuts s = true ->
+  read_string (qn pfx cl) (item_events pfx (runs_of cuts s) ++ End (qn pfx cl) :: rest) =
+  Ok (Some s, rest).
 Proof.
-  intros cl cuts s rest Hcl Hc. destruct (runs_of_legal cuts s Hc) as (Hl & Hk & Hr).
-  pose proof (read_string_item [] cl (runs_of cuts s) rest eq_refl Hcl Hl Hk) as H.
-  cbn [qn] in H. rewrite Hr in H. exact H.
+  intros pfx cl cuts s rest Hp Hcl Hc. destruct (runs_of_legal cuts s Hc) as (Hl & Hk & Hr).
+  pose proof (read_string_item pfx cl (runs_of cuts s) rest Hp Hcl Hl Hk) as H.
+  rewrite Hr in H. exact H.
 Qed.
 
-(* ---------- refutations: the known classes are real ---------- *)
-(* F12: <si><t><![CDATA[a<b]]></t></si> denotes "a<b" and reads as "" *)
-Theorem refuted_F12_shared :
-  exists f, legal_form f = true /\ known_item [] f = Some K_F12 /\
-    forall rest, read_string n_si (item_events [] f ++ End n_si :: rest) <> Ok (item_result f, rest).
-Proof.
-  exists (FPlain false [TcCData [97; 60; 98]] []). split; [reflexivity|]. split; [reflexivity|].
-  intro rest. vm_compute. intro H. discriminate H.
-Qed.
-
-(* F12 on a formula string: <c t="str"><f>…</f><v>u<![CDATA[v]]>w</v></c> reads "uw" *)
-Theorem refuted_F12_formula :
-  exists st, legal_store st = true /\ known_store [] st = Some K_F12 /\
-    stored_text [] st = Some [117; 118; 119] /\
-    read_cell [] (cell_attrs [65; 49] st) (cell_events [] st) = Ok (CString [117; 119], []).
-Proof.
-  exists (StFormula [TcText [49]] [TcText [117]; TcCData [118]; TcText [119]]).
-  repeat split; vm_compute; reflexivity.
-Qed.
-
+(* ---------- refutation: the remaining xlsx class is real ---------- *)
 (* F37: <si><t>a_x000D_</t></si> denotes "a" CR (ECMA-376 ST_Xstring; this is how Excel writes a
-   carriage return) and reads as the nine characters a_x000D_ *)
+   carriage return) and reads as the eight characters a_x000D_.
+   DELETE this lemma when xstring_decode_on_read becomes xunescape (it then fails, as it must). *)
 Theorem refuted_F37 :
-  exists f, legal_form f = true /\ known_item [] f = Some K_F37 /\
+  exists f, legal_form f = true /\ known_item f = Some K_F37 /\
     item_text f = [97; 13] /\
     forall rest, read_string n_si (item_events [] f ++ End n_si :: rest) =
                  Ok (Some [97; 95; 120; 48; 48; 48; 68; 95], rest).
@@ -971,42 +1191,15 @@ Proof.
   repeat split; vm_compute; reflexivity.
 Qed.
 
-(* F34: <x:si><x:r><x:t>a</x:t></x:r></x:si> followed by the rest of the part: the end tag
-   </x:si> is compared by local name with "x:si" and never matches; the reader runs to Eof *)
-Theorem refuted_F34 :
-  exists pfx f, no_colon pfx = true /\ legal_form f = true /\ known_item pfx f = Some K_F34 /\
-    item_result f = Some [97] /\
-    read_shared_strings (sst_events pfx [] [([], f)]) = Err ERR_EOF.
+(* the same on the <v> of a formula string cell: <c t="str"><f>1</f><v>_x000a_</v></c> *)
+Theorem refuted_F37_formula :
+  exists st, legal_store st = true /\ known_store st = Some K_F37 /\
+    stored_text [] st = Some [10] /\
+    read_cell [] (cell_attrs [65; 49] st) (cell_events [] st) =
+    Ok (CString [95; 120; 48; 48; 48; 97; 95], []).
 Proof.
-  exists [120], (FRich [PRun [] false [TcText [97]]]).
+  exists (StFormula [TcText [49]] [TcText [95; 120; 48; 48; 48; 97; 95]]).
   repeat split; vm_compute; reflexivity.
-Qed.
-
-(* F34 on an inline string: <x:c r="A1" t="inlineStr"><x:is/></x:c> followed by a cell holding "|":
-   the reader of A1 runs past its own end tags into the next cell, returns that cell's text for A1,
-   and the next cell is never seen *)
-Theorem refuted_F34_inline_swallows :
-  exists pfx cells, no_colon pfx = true /\
-    known_xlsx pfx [] (StInline (FRich [])) = Some K_F34 /\
-    map (cell_spec []) cells = [([(a_r, [65; 49]); (a_t, v_inlineStr)], CEmpty);
-                                ([(a_r, [66; 49]); (a_t, v_inlineStr)], CString [124])] /\
-    read_sheet_cells [] (sheet_events pfx cells) =
-    Ok [([(a_r, [65; 49]); (a_t, v_inlineStr)], CString [124])].
-Proof.
-  exists [120], [([], [65; 49], StInline (FRich [])); ([], [66; 49], StInline (FPlain false [TcText [124]] []))].
-  repeat split; vm_compute; reflexivity.
-Qed.
-
-(* F34 is not limited to witnesses: no prefixed item without a plain <t> is ever closed by its
-   own end tag *)
-Theorem F34_never_returns_at_own_end : forall x p cl rich phon rest,
-  no_colon (x :: p) = true -> no_colon cl = true ->
-  rs_run (qn (x :: p) cl) (RsOuter rich phon) (End (qn (x :: p) cl) :: rest) =
-  rs_run (qn (x :: p) cl) (RsOuter rich (if str_eqb cl n_rPh then false else phon)) rest.
-Proof.
-  intros x p cl rich phon rest Hp Hcl. cbn [rs_run rs_step].
-  rewrite (local_name_qn _ _ Hp Hcl). rewrite (nocolon_neq_prefixed cl x p cl Hcl).
-  destruct (str_eqb cl n_rPh); reflexivity.
 Qed.
 
 (* ====================================================================================== *)
@@ -1042,26 +1235,25 @@ Proof.
     eapply IH; eassumption.
 Qed.
 
-(* what the content loop keeps of a piece *)
-Definition opiece_mtext (p : opiece) : str :=
-  match p with
-  | OLit s => s
-  | OSp None => [SPACE]
-  | OSp (Some c) => match parse_i32 c with Some k => spaces k | None => [] end
-  | _ => []
-  end.
+(* outside F35 / F36 the content loop keeps of a piece exactly what it denotes; the proof
+   does not depend on the values of ods_tab_text / ods_break_text *)
+Lemma switch_eq : forall (a b : str) (k : N),
+  (if str_eqb a b then None else Some k) = None -> a = b.
+Proof.
+  intros a b k H. destruct (str_eqb a b) eqn:E; [apply str_eqb_eq in E; exact E | discriminate].
+Qed.
 
 Lemma opiece_mtext_known : forall p, known_opiece p = None -> opiece_mtext p = opiece_text p.
 Proof.
-  intros [s|s|c| | |st| |] H; try reflexivity; try discriminate.
-  destruct s; [reflexivity|discriminate].
+  intros [s|s|c| | |st| |] H; cbn [known_opiece opiece_mtext opiece_text] in *;
+    first [apply switch_eq in H; exact H | reflexivity].
 Qed.
 
 Lemma opiece_steps : forall cname val p s first, legal_opiece p = true ->
   od_steps cname val (OdMain s first) (opiece_events p) = Some (OdMain (s ++ opiece_mtext p) first).
 Proof.
   intros cname val p s first Hl.
-  destruct p as [t|t|[c|]| | |st| |]; cbn [opiece_events od_steps od_step opiece_mtext];
+  destruct p as [t|t|[c|]| | |st| |]; cbn [opiece_events od_steps od_step opiece_mtext opiece_text];
     sc; rewrite ?app_nil_r; try reflexivity.
   - (* text:s with text:c *)
     cbn [get_attribute]. sc. cbn [legal_opiece] in Hl.
@@ -1314,7 +1506,8 @@ Proof.
 Qed.
 
 (* ---------- refutations for ods ---------- *)
-(* F35: <text:p>a<text:tab/>b</text:p> denotes "a<TAB>b" and reads "ab" *)
+(* F35: <text:p>a<text:tab/>b</text:p> denotes "a<TAB>b" and reads "ab".
+   DELETE this lemma when ods_tab_text becomes [9]. *)
 Theorem refuted_F35 :
   exists cs, legal_content cs = true /\ known_content cs = Some K_F35 /\
     content_text cs = [97; 9; 98] /\
@@ -1322,18 +1515,11 @@ Theorem refuted_F35 :
     Ok (OString [97; 98], [], []).
 Proof. exists [CPara [OLit [97]; OTab; OLit [98]]]. repeat split; vm_compute; reflexivity. Qed.
 
-(* F36: <text:p>a<text:line-break/>b</text:p> denotes "a<LF>b" and reads "ab" *)
+(* F36: <text:p>a<text:line-break/>b</text:p> denotes "a<LF>b" and reads "ab".
+   DELETE this lemma when ods_break_text becomes [10]. *)
 Theorem refuted_F36 :
   exists cs, legal_content cs = true /\ known_content cs = Some K_F36 /\
     content_text cs = [97; 10; 98] /\
     ods_cell o_cell (ods_cell_attrs [] (OsContent cs)) (ods_cell_events o_cell (OsContent cs)) =
     Ok (OString [97; 98], [], []).
 Proof. exists [CPara [OLit [97]; OBreak; OLit [98]]]. repeat split; vm_compute; reflexivity. Qed.
-
-(* F12 in ods: <text:p><![CDATA[a]]>b</text:p> reads "b" *)
-Theorem refuted_F12_ods :
-  exists cs, legal_content cs = true /\ known_content cs = Some K_F12 /\
-    content_text cs = [97; 98] /\
-    ods_cell o_cell (ods_cell_attrs [] (OsContent cs)) (ods_cell_events o_cell (OsContent cs)) =
-    Ok (OString [98], [], []).
-Proof. exists [CPara [OCD [97]; OLit [98]]]. repeat split; vm_compute; reflexivity. Qed.
